@@ -217,6 +217,26 @@ func (ri *ringInfo) rangeOf(t *Term, oldSet bool) iv2 {
 	return iv2{}
 }
 
+// within decides lo <= t <= hi; a two-way selection is decided branch by branch, each under its own condition
+// (select(mark != -1, mark, next): the first branch knows the mark is set).
+func (ri *ringInfo) within(t *Term, oldSet bool, lo, hi lin2) (bool, string) {
+	if t.Op == "select" && len(t.Args) == 3 {
+		c := t.Args[0].String()
+		setA, setB := oldSet, oldSet
+		switch c {
+		case "ne(-1, " + ri.OLD + ")":
+			setA = true
+		case "eq(-1, " + ri.OLD + ")":
+			setB = true
+		}
+		okA, dA := ri.within(t.Args[1], setA, lo, hi)
+		okB, dB := ri.within(t.Args[2], setB, lo, hi)
+		return okA && okB, "select: " + dA + " | " + dB
+	}
+	rg := ri.rangeOf(t, oldSet)
+	return rg.within(lo, hi), fmt.Sprintf("%s in [%s, %s]", t, rg.lo, rg.hi)
+}
+
 func (v iv2) within(lo, hi lin2) bool {
 	return v.ok && v.lo.add(lo.neg()).nonneg() && hi.add(v.hi.neg()).nonneg()
 }
@@ -462,11 +482,11 @@ func propC19(w *World, r *Report) {
 					t := ie.termOf(x.Val)
 					switch fa.Field {
 					case ri.fCUR:
-						rg := ri.rangeOf(t, oldSet)
-						r.Check(rg.within(zero, nm1), "Q1", fn.Name()+": stored position stays in [0, n-1]", w.InstrPos(x), fmt.Sprintf("%s in [%s, %s]", t, rg.lo, rg.hi))
+						okw, dw := ri.within(t, oldSet, zero, nm1)
+						r.Check(okw, "Q1", fn.Name()+": stored position stays in [0, n-1]", w.InstrPos(x), dw)
 					case ri.fOLD:
-						rg := ri.rangeOf(t, oldSet)
-						r.Check(rg.within(lin2{0, -1}, nm1), "Q1", fn.Name()+": stored mark stays in [-1, n-1]", w.InstrPos(x), fmt.Sprintf("%s in [%s, %s]", t, rg.lo, rg.hi))
+						okw, dw := ri.within(t, oldSet, lin2{0, -1}, nm1)
+						r.Check(okw, "Q1", fn.Name()+": stored mark stays in [-1, n-1]", w.InstrPos(x), dw)
 					}
 				case *ssa.IndexAddr:
 					base := ie.termOf(x.X).String()
@@ -476,8 +496,8 @@ func propC19(w *World, r *Report) {
 					k++
 					nIdx++
 					t := ie.termOf(x.Index)
-					rg := ri.rangeOf(t, oldSet)
-					r.Check(rg.within(zero, nm1), "Q2", fmt.Sprintf("%s: element index #%d within [0, n-1]", fn.Name(), k), w.InstrPos(x), fmt.Sprintf("%s in [%s, %s]", t, rg.lo, rg.hi))
+					okw, dw := ri.within(t, oldSet, zero, nm1)
+					r.Check(okw, "Q2", fmt.Sprintf("%s: element index #%d within [0, n-1]", fn.Name(), k), w.InstrPos(x), dw)
 				case *ssa.Slice:
 					base := ie.termOf(x.X).String()
 					if base != FR && base != ORD {
